@@ -166,6 +166,12 @@ func setupRuleTmp(verif string) {
 	os.Symlink(filepath.Join(ruleTmp, "file1"), filepath.Join(ruleTmp, "ln-file"))
 	os.Symlink(filepath.Join(ruleTmp, "dir1"), filepath.Join(ruleTmp, "ln-dir"))
 	os.Symlink(filepath.Join(ruleTmp, "nowhere"), filepath.Join(ruleTmp, "ln-dangling"))
+	// a link into a deeper directory, so that "<link>/../x" names one object to the operating system (x beside the link's
+	// target) and another to a program that tidies the path as text (x beside the link): deep/file1 is a directory,
+	// file1 a regular file
+	os.MkdirAll(filepath.Join(ruleTmp, "deep", "inner"), 0o755)
+	os.MkdirAll(filepath.Join(ruleTmp, "deep", "file1"), 0o755)
+	os.Symlink(filepath.Join(ruleTmp, "deep", "inner"), filepath.Join(ruleTmp, "ln-deep"))
 	// names that are not valid UTF-8 (legacy encodings), as a directory, inside such a directory, and as a file
 	os.MkdirAll(filepath.Join(ruleTmp, "caf\xe9", "sub"), 0o755)
 	os.WriteFile(filepath.Join(ruleTmp, "caf\xe9", "men\xfc.txt"), []byte("x"), 0o644)
@@ -1398,7 +1404,11 @@ func genRuleLine(rng *rand.Rand, wantValid bool) RCaseR {
 	case x == 0: // file watch
 		paths := []string{filepath.Join(ruleTmp, "file1"), filepath.Join(ruleTmp, "dir1"), filepath.Join(ruleTmp, "dir1") + "/", filepath.Join(ruleTmp, "nonexistent"), "/etc/passwd", filepath.Join(ruleTmp, "dir1", "..", "file1"), "relative/path", "/",
 			filepath.Join(ruleTmp, "fifo1"), filepath.Join(ruleTmp, "sock1"), filepath.Join(ruleTmp, "ln-file"), filepath.Join(ruleTmp, "ln-dir"), filepath.Join(ruleTmp, "ln-dangling"), "/dev/null", "/dev/tty", "/proc/self/exe", "/proc/self",
-			filepath.Join(ruleTmp, "caf\xe9"), filepath.Join(ruleTmp, "caf\xe9", "sub"), filepath.Join(ruleTmp, "caf\xe9", "men\xfc.txt"), filepath.Join(ruleTmp, "f\xff\xfe")}
+			filepath.Join(ruleTmp, "caf\xe9"), filepath.Join(ruleTmp, "caf\xe9", "sub"), filepath.Join(ruleTmp, "caf\xe9", "men\xfc.txt"), filepath.Join(ruleTmp, "f\xff\xfe"),
+			// spellings with ".." behind something that is not a directory, is missing, or is a link elsewhere: the rule holds the
+			// path tidied as text, and its kind is that of the path it holds
+			ruleTmp + "/file1/..", ruleTmp + "/missing/..", ruleTmp + "/dir1/missing/..", ruleTmp + "/ln-file/..", ruleTmp + "/ln-deep/../file1", ruleTmp + "/ln-deep/..", ruleTmp + "/ln-dangling/../file1",
+			ruleTmp + "/dir1/../file1", ruleTmp + "/./dir1/.", ruleTmp + "//file1", ruleTmp + "/fifo1/../dir1"}
 		p := paths[rng.Intn(len(paths))]
 		if rng.Intn(5) == 0 {
 			p = filepath.Join(ruleTmp, "flip")
